@@ -121,6 +121,16 @@ def run(facts, tr, rep):
         ok = mentions_field(tr, d, "max_wait_duration") and d[0] != "binop"
         rep.ob("C07.ERRORS", skey(b, "timeout-duration"), ok, ac.where(),
                "the wait is bounded by config.max_wait_duration itself" if ok else "the wait duration is %s, not config.max_wait_duration" % show(d))
+    # ---------------------------------------------------------------- BOUNDED-WAIT: an unbounded wait only when no max wait is configured
+    for (a, kind, ac, acqc) in acq:
+        if kind != "plain":
+            continue
+        edges = dominating_edges(tr, b, a.into_bb)
+        on_none = any(e["kind"] == "enum" and e["label"] == "None" and mentions_field(tr, e["node"], "max_wait_duration") for e in edges)
+        rep.ob("C07.BOUNDED-WAIT", skey(b, "plain-acquire@L%d" % a.line), on_none, g.where(a.into_bb),
+               "the permit is awaited without a deadline only when max_wait_duration is None" if on_none else
+               "the permit is awaited without a deadline on a path where max_wait_duration may be configured: such a caller is "
+               "never rejected with the timeout error, however long it queues")
     # ---------------------------------------------------------------- NO-DELAY
     for (a, kind, ac, acqc) in acq:
         pre = [x for x in g.awaits() if x is not a and x.into_bb is not None and a.into_bb in g.reach([x.into_bb], kinds=(N,))
